@@ -13,6 +13,7 @@ TARGETS = [
     ("src/rbacx/core/compiler.py", ["_actions", "_resource_types", "_has_id", "_has_attrs", "_type_matches", "_categorize"]),
     ("src/rbacx/core/policy.py", ["match_actions"]),
     ("src/rbacx/core/policyset.py", ["_is_applicable"]),
+    ("src/rbacx/store/policy_loader.py", ["_detect_format"]),
 ]
 
 
